@@ -150,3 +150,27 @@ def angles(rng, vertex_dirs=None, n=200):
         out.append(vd + 2 * np.pi * rng.integers(-2, 3, size=len(vd)))
     out.append(rng.uniform(0, 2 * np.pi, size=n // 4))
     return np.concatenate(out)
+
+
+def layouts(arr, rng=None):
+    """The same numerical array in the other memory layouts a caller may hold it in: [(label, array)].
+    Values are bit-identical to ``arr`` in every form, so the callee's answers must be identical too."""
+    a = np.ascontiguousarray(arr, dtype=np.float64)
+    out = []
+    if a.ndim == 2:
+        out.append(("fortran-order", np.asfortranarray(a)))
+        wide = np.zeros((a.shape[0], 2 * a.shape[1]))
+        wide[:, ::2] = a
+        out.append(("strided-columns", wide[:, ::2]))
+        tall = np.zeros((2 * a.shape[0], a.shape[1]))
+        tall[::2] = a
+        out.append(("strided-rows", tall[::2]))
+        out.append(("reversed-view", a[::-1][::-1]))
+    else:
+        long = np.zeros(2 * a.shape[0])
+        long[::2] = a
+        out.append(("strided", long[::2]))
+    ro = a.copy()
+    ro.setflags(write=False)
+    out.append(("read-only", ro))
+    return out
